@@ -152,7 +152,7 @@ func (e histEngine) Parties() map[string]string {
 }
 func (e histEngine) FaultKinds() []string {
 	if e.id == "C06" {
-		return []string{"F2_restore", "F2_restart", "F2_double_restore", "F2_restore_on_passthrough"}
+		return []string{"F2_restore", "F2_restart", "F2_double_restore", "F2_restore_on_passthrough", "F2_restore_via_passthrough"}
 	}
 	return []string{"F1_rejected_reconfigure", "F1_on_passthrough", "F1_on_configured_debug_on", "F1_multi_violation", "F1_derived_from_current_config", "F1_rejected_mid_stream"}
 }
@@ -196,7 +196,7 @@ func (e histEngine) Gen(r *R, tier string) any {
 			p.Steps = append(p.Steps, HStep{Kind: "setdebug", Debug: r.P(0.6)})
 		default:
 			if e.id == "C06" {
-				p.Steps = append(p.Steps, HStep{Kind: pick(r, []string{"restore", "restore", "restart", "double_restore"})})
+				p.Steps = append(p.Steps, HStep{Kind: pick(r, []string{"restore", "restore", "restart", "double_restore", "restore_via_nil"})})
 			} else {
 				st := HStep{Kind: "reject", Cfg: r.Intn(n), Planted: genPlanted(r, pick(r, []int{1, 1, 1, 2, 3, 4}))}
 				if r.P(0.35) {
@@ -229,10 +229,12 @@ func (e histEngine) Exec(plan any, c *Ctx) *Violation {
 	var shadow *cors.Middleware
 	rejectedSince := false
 	cur := -1 // plan-level belief, used only to select probes
+	dbgBelief := false
 	twinDone := map[int]bool{}
 	longLived = map[*cors.Middleware]*mwServer{}
 	observeTick = 0
 	for si, st := range p.Steps {
+		clockTick("a step")
 		label := fmt.Sprintf("#%d %s", si, st.Kind)
 		if st.Cfg >= len(p.Cfgs) {
 			st.Cfg = 0
@@ -264,8 +266,15 @@ func (e histEngine) Exec(plan any, c *Ctx) *Violation {
 			case "reconf_nil":
 				err = m.Reconfigure(nil)
 				cur = -1
+				dbgBelief = false
 			case "setdebug":
 				m.SetDebug(st.Debug)
+				dbgBelief = st.Debug && cur >= 0
+			case "restore_via_nil":
+				if dbgBelief { // (Reconfigure(nil) switches debug off: the plain round trip instead)
+					st.Kind = "restore"
+				}
+				v = e.f2(p, m, cur, st.Kind, label, c, &m, twinDone)
 			case "restore", "restart", "double_restore":
 				v = e.f2(p, m, cur, st.Kind, label, c, &m, twinDone)
 			case "reject":
@@ -428,6 +437,29 @@ func (e histEngine) f2(p *HistPlan, m *cors.Middleware, cur int, kind, label str
 			if c4 := m.Config(); !reflect.DeepEqual(own, c4) {
 				return &Violation{Class: "config-not-fixpoint", Key: cfgStr(own), Detail: fmt.Sprintf("%s: Config() was %s; after the caller edited the value it had fed back it is %s", label, cfgStr(own), cfgStr(c4))}
 			}
+		}
+	case "restore_via_nil":
+		// the operator saves Config(), switches CORS off, and later feeds the saved value
+		// back: the same middleware must answer as before (debug is off on both sides)
+		if snap == nil {
+			return nil
+		}
+		if q, ok := debugProbe(p.Cfgs[cur]); ok && isOK(newServer(m.Wrap).do(q).Status) {
+			return nil // debug is on after all: not this fault's business
+		}
+		c.hit("F2_restore_via_passthrough")
+		if err := m.Reconfigure(nil); err != nil {
+			return &Violation{Class: "restore-rejected", Key: "nil", Detail: fmt.Sprintf("%s: Reconfigure(nil) failed with %q", label, err)}
+		}
+		if err := m.Reconfigure(snap); err != nil {
+			return &Violation{Class: "restore-rejected", Key: key, Detail: fmt.Sprintf("%s: saved := m.Config(); m.Reconfigure(nil); m.Reconfigure(saved) failed with %q; saved = %s", label, err, key)}
+		}
+		after, pan := observeMW(m, suite)
+		if pan != "" {
+			return &Violation{Class: "panic", Key: "observe", Detail: label + ": " + pan}
+		}
+		if d := diffObs(before, after, suite, false); d != "" {
+			return &Violation{Class: "restore-changed-behaviour", Key: key, Detail: label + " (saved := m.Config(); m.Reconfigure(nil); m.Reconfigure(saved)): " + d}
 		}
 	case "restart":
 		c.hit("F2_restart")
